@@ -471,6 +471,154 @@ func TestWriterFault(t *testing.T) {
 	}
 }
 
+// ---- re-entrant logging
+
+// reent is a value that logs through another handler of the same tree while
+// it is being formatted, once, when armed.
+type reent struct {
+	armed *atomic.Bool
+	h     func() slog.Handler
+	rec   slog.Record
+	how   int // 0 LogValuer, 1 fmt.Stringer (slog.AnyValue), 2 encoding.TextMarshaler, 3 error
+}
+
+func (v reent) fire() {
+	if v.armed.CompareAndSwap(true, false) {
+		_ = v.h().Handle(context.Background(), v.rec)
+	}
+}
+
+type reentLV struct{ reent }
+
+func (v reentLV) LogValue() slog.Value { v.fire(); return slog.StringValue("resolved") }
+
+type reentStr struct{ reent }
+
+func (v reentStr) String() string { v.fire(); return "stringer" }
+
+type reentTM struct{ reent }
+
+func (v reentTM) MarshalText() ([]byte, error) { v.fire(); return []byte("marshalled"), nil }
+
+type reentErr struct{ reent }
+
+func (v reentErr) Error() string { v.fire(); return "error text" }
+
+var reentKinds = []string{"slog.LogValuer", "fmt.Stringer", "encoding.TextMarshaler", "error"}
+
+// TestReentrant: a value that logs while it is being formatted (a LogValuer, Stringer, TextMarshaler or error whose
+// method reports something through a sibling, the parent or the very same handler).  Both records must come out,
+// one line each; a handler that formats under its tree-wide lock never returns.
+func TestReentrant(t *testing.T) {
+	r := mon.Start("C19", "reentrant")
+	var n int64
+	stuck := false
+	for opt := 0; opt < nOpts && !stuck; opt++ {
+		for how := 0; how < 4 && !stuck; how++ {
+			for where := 0; where < 2 && !stuck; where++ { // the value sits in the record / in the handler's attributes
+				for via := 0; via < 4 && !stuck; via++ { // the inner record goes through: root, sibling, the same handler, a child of it
+					o := options(optKind(opt))
+					w := &plainRecorder{}
+					root := node{slogutil.NewJSONHybridHandler(w, o), nil}
+					sib := derive(root, attrsN(1, opt+1))
+					armed := &atomic.Bool{}
+					inner := mkRecord(slog.LevelError, "inner", 1, how+via, false)
+					var outerNode, innerNode node
+					base := reent{armed: armed, h: func() slog.Handler { return innerNode.h }, rec: inner, how: how}
+					var val any
+					switch how {
+					case 0:
+						val = reentLV{base}
+					case 1:
+						val = reentStr{base}
+					case 2:
+						val = reentTM{base}
+					default:
+						val = reentErr{base}
+					}
+					outer := mkRecord(slog.LevelInfo+slog.Level(4*(via%2)), "outer", 1, opt, false)
+					if where == 0 {
+						outerNode = derive(root, attrsN(2, how))
+						outer.AddAttrs(slog.Any("reentrant", val))
+					} else {
+						outerNode = derive(root, []slog.Attr{slog.Int("before", 1), slog.Any("reentrant", val)})
+					}
+					switch via {
+					case 0:
+						innerNode = root
+					case 1:
+						innerNode = sib
+					case 2:
+						innerNode = outerNode
+					default:
+						innerNode = derive(outerNode, attrsN(1, 5))
+					}
+					// references with the value disarmed; when the inner record passes through a handler that
+					// carries the value itself, formatting the inner record calls the (by then disarmed) method again
+					wantOuter, ok1 := refLine(o, outer, outerNode.acc)
+					wantInner, ok2 := refLine(o, inner, innerNode.acc)
+					if !ok1 || !ok2 || outer.Level < configured(o) {
+						continue
+					}
+					w.writes = nil
+					armed.Store(true)
+					done := make(chan string, 1)
+					go func() {
+						var herr error
+						p, pv := mon.Catch(func() { herr = outerNode.h.Handle(context.Background(), outer) })
+						switch {
+						case p:
+							done <- fmt.Sprintf("Handle panicked: %v", pv)
+						case herr != nil:
+							done <- fmt.Sprintf("Handle returned %v", herr)
+						default:
+							done <- ""
+						}
+					}()
+					var res string
+					select {
+					case res = <-done:
+					case <-time.After(30 * time.Second):
+						res = "Handle did not return within 30 s: formatting a value that logs through the same tree deadlocks"
+						stuck = true
+					}
+					n++
+					if res == "" {
+						switch {
+						case armed.Load():
+							// the value's method was never called: the reference (a text handler) calls it
+							res = "the value's " + reentKinds[how] + " method was not called"
+						case len(w.writes) != 2:
+							res = fmt.Sprintf("%d writes for the outer record and the record logged while formatting it, want 2", len(w.writes))
+						default:
+							a, b := judgeWrite(w.writes[0], inner.Level, wantInner), judgeWrite(w.writes[1], outer.Level, wantOuter)
+							if a != "" || b != "" {
+								// the other order is as good
+								a2, b2 := judgeWrite(w.writes[1], inner.Level, wantInner), judgeWrite(w.writes[0], outer.Level, wantOuter)
+								if a2 != "" || b2 != "" {
+									res = "inner line: " + a + "; outer line: " + b
+								}
+							}
+						}
+					}
+					if res != "" {
+						r.Violation(fmt.Sprintf("reentrant:%d:%d:%d:%d", opt, how, where, via), fmt.Sprintf("options #%d, a %s value (%s) that logs through %s while being formatted: %s", opt, reentKinds[how],
+							[]string{"attribute of the record", "attribute given to WithAttrs"}[where], []string{"the root handler", "a sibling handler", "the same handler", "a child of the same handler"}[via], res),
+							map[string]any{"options": opt, "kind": how, "where": where, "via": via})
+					}
+				}
+			}
+		}
+	}
+	r.Eval(n)
+	r.NontrivialN(n)
+	r.Count("reentrant_records", n)
+	r.Sample(map[string]any{"scenario": "record with attribute reentrant=<LogValuer>; LogValue() logs an ERROR record through a sibling handler of the same tree", "checked": "two writes, one correct line each"})
+	if r.Finish() > 0 {
+		t.Fail()
+	}
+}
+
 // TestConcurrent logs through a derivation tree from many goroutines onto one
 // shared writer.
 func TestConcurrent(t *testing.T) {
